@@ -31,6 +31,8 @@ THEOREMS = [
     "C09_child_output_sync",
     "C09_links_read",
     "C09_setter_keeps_links",
+    "C09_assignment_reaches_chain",
+    "C09_reassign_repairs",
     "C09_links_sync_receiving_witness",
     "C09_links_sync_not_statement",
     "C09_dup_return_repaired",
@@ -45,7 +47,9 @@ THEOREMS = [
 RULE = (
     "seeded random macro definitions (0-3 parameters used 0/1/many times, passed through, fed to nested macros "
     "up to depth 3, with/without defaults and hints, scraped or declared labels, decorator or subclass, automatic "
-    "or hand-wired flow) x histories of macro-level and child-level updates and runs; plus (thorough) every usage "
+    "or hand-wired flow, optionally as a class extending another macro class) x histories of macro-level and "
+    "child-level updates (fresh values, equal values, the identical object re-assigned), repairs after "
+    "receiving-side writes, and runs; plus (thorough) every usage "
     "pattern of <= 2 parameters exhaustively; non-trivial = the macro has a child and ran successfully at least "
     "once; distinct by canonical case"
 )
@@ -699,7 +703,21 @@ def W_RECV():
             "kwargs": [], "cache": True, "ops": [["setin", [0], 0, "c7"]], "mode": "any"}
 
 
+def W_SUB():
+    """class M1(M2) overriding graph_creator, labels scraped, parent previewed first"""
+    base = _mac(2, [("c1", 0)], [_leaf(0, ["a", 0])], [["o", 0, 0]], lab="scrape", style="class")
+    m = _mac(1, [("c1", 0), ("c2", 0)], [_leaf(0, ["a", 0]), _leaf(1, ["a", 1], ["o", 0, 0])],
+             [["o", 1, 0], ["a", 1]], lab="scrape", style="class")
+    m["base"] = base
+    return {"def": m, "kwargs": [], "cache": True, "ops": [["run"]], "mode": "clean", "touch_base": True}
+
+
 def corpus():
+    # KF-C09-3: labels scraped for a parent class are inherited by the class that overrides graph_creator
+    yield W_SUB()
+    sub_first = W_SUB()
+    sub_first["touch_base"] = False
+    yield sub_first
     # KF-C09-1: the same child output returned under two labels — only the last label ever receives
     yield W_DUP()
     # KF-C09-2: an update on the receiving end of a value link does not reach the macro channel
